@@ -25,7 +25,7 @@ FILES = {
     "pkg/parser/multiline.go": ("", "./pkg/parser/", ["C07", "C06"], None),
     "pkg/parser/scope.go": ("", "./pkg/parser/", ["C05", "C10"], None),
     "pkg/evaluator/evaluator.go": ("", "./pkg/evaluator/", ["C10", "C01", "C02", "C09", "C15", "C14"], None),
-    "pkg/evaluator/value.go": ("", "./pkg/evaluator/", ["C11", "C12", "C09", "C01", "C02"], None),
+    "pkg/evaluator/value.go": ("", "./pkg/evaluator/", ["C11", "C12", "C09", "C01", "C15", "C02"], None),
     "pkg/evaluator/builtin.go": ("", "./pkg/evaluator/", ["C13", "C02", "C19"], None),
     "pkg/evaluator/ranger.go": ("", "./pkg/evaluator/", ["C10", "C12"], None),
     "pkg/evaluator/scope.go": ("", "./pkg/evaluator/", ["C10", "C09", "C15"], None),
@@ -91,13 +91,13 @@ def main():
             if rc != 0:
                 rec["outcome"] = "does-not-compile"
                 continue
-            rc, out = run(["go", "test", "-vet=off", "-count=1", pkg], moddir, 600)
+            rc, out = run(["go", "test", "-vet=off", "-count=1", "-timeout", "90s", pkg], moddir, 150)
             if rc != 0:
                 rec["outcome"] = "killed-by-tests"
                 continue
             rec["outcome"] = "SURVIVED"
             for c in checks:
-                rc, out = run([os.path.join(VERIF, "bin", "check"), c], VERIF, 1800)
+                rc, out = run([os.path.join(VERIF, "bin", "check"), c], VERIF, 900)
                 if rc != 0:
                     viol = [l for l in out.splitlines() if l.startswith("VIOLATION")]
                     rec["outcome"] = "detected"
